@@ -143,8 +143,10 @@ func (d *kdb) Suicide(a kcommon.Address) bool {
 }
 
 func (d *kdb) AddLog(l *ktypes.Log) {
-	d.note(fLogs, addr{}, word{})
 	d.StateDB.AddLog(l)
+	// AddLog numbers the log with the count of logs before it: that is the previous value
+	// of the "number of logs" field (reading Logs() here would make log loops quadratic).
+	d.undo = append(d.undo, undoRec{field{kind: fLogs}, wordU(uint64(l.Index))})
 }
 
 // ---- tracer ----
@@ -257,7 +259,7 @@ func (t *ktracer) CaptureState(pc uint64, opc kvm.OpCode, gas, cost uint64, scop
 			}
 		}
 		if len(stack) > 0 && stack[len(stack)-1].IsZero() {
-			t.checkReverted(f.pend.lo, f.pend.op, f.pend.self, fmt.Sprintf("%s at pc %d, depth %d", opName(f.pend.op), f.pend.pc, depth))
+			t.checkReverted(f.pend.lo, f.pend.op, f.pend.self, f.pend.pc, depth)
 		}
 	}
 	if t.record && len(o.Rec) < maxRec {
@@ -384,20 +386,39 @@ const maxRevertRange = 50000
 // before its first mutation in that range. The only change that legitimately survives
 // a failed CREATE/CREATE2 is the creator's nonce increment (Yellow Paper, eq. 7.x:
 // the nonce is incremented before the creation frame's checkpoint).
-func (t *ktracer) checkReverted(lo int, op byte, self addr, where string) {
+func (t *ktracer) checkReverted(lo int, op byte, self addr, pc uint64, depth int) {
 	d := t.db
 	hi := len(d.undo)
 	if hi-lo > maxRevertRange {
 		t.out.failClass("revert-check-skipped")
 		return
 	}
-	seen := map[field]bool{}
+	// Once the range is verified its records are dropped: every field in it is back at the
+	// recorded value, and a later mutation records that same value again. This keeps the
+	// total work linear in deep or wide call trees.
+	var keep []undoRec
+	defer func() { d.undo = append(d.undo[:lo], keep...) }()
+	var seen map[field]bool
+	if hi-lo > 24 {
+		seen = make(map[field]bool, hi-lo)
+	}
 	for i := lo; i < hi; i++ {
-		u := d.undo[i]
-		if seen[u.f] {
-			continue
+		u := &d.undo[i]
+		// only the first record of a field in the range holds its value from before the frame
+		if seen != nil {
+			if seen[u.f] {
+				continue
+			}
+			seen[u.f] = true
+		} else {
+			dup := false
+			for j := lo; j < i && !dup; j++ {
+				dup = d.undo[j].f == u.f
+			}
+			if dup {
+				continue
+			}
 		}
-		seen[u.f] = true
 		cur := d.cur(u.f)
 		if cur == u.prev {
 			continue
@@ -405,12 +426,15 @@ func (t *ktracer) checkReverted(lo int, op byte, self addr, where string) {
 		if (op == opCREATE || op == opCREATE2 || op == 0) && u.f.kind == fNonce && u.f.a == self {
 			p := new(big.Int).SetBytes(u.prev[:])
 			if new(big.Int).SetBytes(cur[:]).Cmp(p.Add(p, big.NewInt(1))) == 0 {
+				keep = append(keep, *u) // an enclosing frame that fails must still restore it
 				continue
 			}
 		}
 		on := "top-level " + t.w.Entry
+		where := on
 		if op != 0 {
 			on = opName(op)
+			where = fmt.Sprintf("%s at pc %d, depth %d", on, pc, depth)
 		}
 		t.structural("failed-frame-left-change:"+fieldName[u.f.kind]+":"+on,
 			fmt.Sprintf("%s failed but %s of %s (slot %s) is %s, was %s before the frame", where, fieldName[u.f.kind], u.f.a, u.f.k, cur, u.prev))
@@ -501,7 +525,7 @@ func runKVM(w *World, record bool) *Outcome {
 	if rerr != nil {
 		// the failed top-level frame must leave no change either (the caller's nonce
 		// increment of a creation excepted)
-		tr.checkReverted(0, 0, w.Origin, "top-level "+w.Entry)
+		tr.checkReverted(0, 0, w.Origin, 0, 0)
 	}
 	for _, l := range sdb.Logs() {
 		lr := LogRec{Addr: addr(l.Address), Data: append([]byte{}, l.Data...)}
